@@ -539,26 +539,49 @@ func c11RaceBinary() (string, string) {
 	return c11RaceBin, c11RaceErr
 }
 
-// race detector reports → one witness class per distinct top frame inside siglens
+// race detector reports → one witness class per distinct top siglens frame of the WRITING access (of the
+// later one when both write): the many readers of one unsynchronised write fall into one class
 func c11RaceSigs(stderr string) []PropFail {
 	var out []PropFail
 	seen := map[string]bool{}
-	for _, rep := range strings.Split(stderr, "WARNING: DATA RACE")[1:] {
-		if strings.Contains(rep, "main.bootEngine") {
-			// one side of the race is the harness's own engine bootstrap (engine.go starts the product's background
-			// loops in its own order): a harness artefact, not a finding
-			continue
-		}
-		frame := "unknown"
-		for _, l := range strings.Split(rep, "\n") {
+	topFrame := func(block string) string {
+		for _, l := range strings.Split(block, "\n") {
 			l = strings.TrimSpace(l)
 			if strings.HasPrefix(l, "github.com/siglens/siglens/pkg/") {
 				if i := strings.LastIndexByte(l, '('); i > 0 {
 					l = l[:i]
 				}
-				frame = strings.TrimPrefix(l, "github.com/siglens/siglens/")
-				break
+				return strings.TrimPrefix(l, "github.com/siglens/siglens/")
 			}
+		}
+		return ""
+	}
+	for _, rep := range strings.Split(stderr, "WARNING: DATA RACE")[1:] {
+		acc := rep
+		if i := strings.Index(acc, "\nGoroutine "); i >= 0 {
+			acc = acc[:i] // the two racing accesses, without the "Goroutine N created at" stacks
+		}
+		if strings.Contains(acc, "main.bootEngine") {
+			// one side of the race is the harness's own engine bootstrap (engine.go starts the product's background
+			// loops in its own order): a harness artefact, not a finding
+			continue
+		}
+		blocks := strings.Split(strings.TrimSpace(acc), "\n\n")
+		frame := ""
+		for _, b := range blocks {
+			h := strings.TrimSpace(b)
+			if strings.HasPrefix(h, "Write at") || strings.HasPrefix(h, "Previous write at") || strings.HasPrefix(h, "Atomic write at") || strings.HasPrefix(h, "Previous atomic write at") {
+				frame = topFrame(b)
+				if frame != "" {
+					break
+				}
+			}
+		}
+		if frame == "" {
+			frame = topFrame(acc)
+		}
+		if frame == "" {
+			frame = "unknown"
 		}
 		sig := "conc/data-race@" + frame
 		if !seen[sig] {
